@@ -117,19 +117,35 @@ class RecProgram:
         return out
 
 
+class _QLProxy:
+    """Stands in for the `openql` module inside platform_manager: Program / Kernel construct recorders, everything else is the real module."""
+
+    def __init__(self, real):
+        self._real = real
+
+    def Program(self, name, *args, **kwargs):
+        return RecProgram(name)
+
+    def Kernel(self, name, *args, **kwargs):
+        return RecKernel(name)
+
+    def __getattr__(self, item):
+        return getattr(self._real, item)
+
+
 class recording:
-    """Context manager: PlatformManager hands out recorders instead of OpenQL objects."""
+    """Context manager: the OpenQL classes PlatformManager instantiates are recorders.  PlatformManager.construct_program /
+    construct_kernel themselves stay the library's own code (anything they keep between calls is under observation)."""
 
     def __enter__(self):
-        from qce_circuit.addon_openql.platform_manager import PlatformManager
-        self.pm = PlatformManager
-        self.saved = (PlatformManager.__dict__["construct_program"], PlatformManager.__dict__["construct_kernel"])
-        PlatformManager.construct_program = classmethod(lambda cls, name: RecProgram(name))
-        PlatformManager.construct_kernel = classmethod(lambda cls, name: RecKernel(name))
+        import qce_circuit.addon_openql.platform_manager as pm
+        self.pm = pm
+        self.saved = pm.ql
+        pm.ql = _QLProxy(pm.ql)
         return self
 
     def __exit__(self, *exc):
-        self.pm.construct_program, self.pm.construct_kernel = self.saved
+        self.pm.ql = self.saved
         return False
 
 
